@@ -4,7 +4,7 @@ CONSTANTS
   UnitSeq <- Units
   MaxBody = 6
   Framings = {"cl", "chunked", "close"}
-  Kinds = {"ok", "refuse", "garbage", "badhdr", "badcl", "badchunk"}
+  Kinds = {"ok", "refuse", "blackhole", "garbage", "badhdr", "badcl", "badchunk"}
   CutCodes <- Codes_cut
   UpModes = {"fast"}
   Requests <- Req_one
